@@ -83,7 +83,9 @@ impl<Idx: ZeroCopy + SerializeInner + TypeHash + AlignHash> SerializeInner
     for core::ops::Range<Idx>
 {
     type SerType = Self;
-    const IS_ZERO_COPY: bool = true;
+    // Ranges can be elements of zero-copy blocks, which are serialized as
+    // raw memory: they are zero-copy only if the index type actually is.
+    const IS_ZERO_COPY: bool = Idx::IS_ZERO_COPY;
     const ZERO_COPY_MISMATCH: bool = false;
 
     #[inline(always)]
@@ -116,7 +118,9 @@ impl<Idx: ZeroCopy + SerializeInner + TypeHash + AlignHash> SerializeInner
     for core::ops::RangeFrom<Idx>
 {
     type SerType = Self;
-    const IS_ZERO_COPY: bool = true;
+    // Ranges can be elements of zero-copy blocks, which are serialized as
+    // raw memory: they are zero-copy only if the index type actually is.
+    const IS_ZERO_COPY: bool = Idx::IS_ZERO_COPY;
     const ZERO_COPY_MISMATCH: bool = false;
 
     #[inline(always)]
@@ -146,7 +150,9 @@ impl<Idx: ZeroCopy + SerializeInner + TypeHash + AlignHash> SerializeInner
     for core::ops::RangeInclusive<Idx>
 {
     type SerType = Self;
-    const IS_ZERO_COPY: bool = true;
+    // Ranges can be elements of zero-copy blocks, which are serialized as
+    // raw memory: they are zero-copy only if the index type actually is.
+    const IS_ZERO_COPY: bool = Idx::IS_ZERO_COPY;
     const ZERO_COPY_MISMATCH: bool = false;
 
     #[inline(always)]
@@ -184,7 +190,9 @@ impl<Idx: ZeroCopy + SerializeInner + TypeHash + AlignHash> SerializeInner
     for core::ops::RangeTo<Idx>
 {
     type SerType = Self;
-    const IS_ZERO_COPY: bool = true;
+    // Ranges can be elements of zero-copy blocks, which are serialized as
+    // raw memory: they are zero-copy only if the index type actually is.
+    const IS_ZERO_COPY: bool = Idx::IS_ZERO_COPY;
     const ZERO_COPY_MISMATCH: bool = false;
 
     #[inline(always)]
@@ -214,7 +222,9 @@ impl<Idx: ZeroCopy + SerializeInner + TypeHash + AlignHash> SerializeInner
     for core::ops::RangeToInclusive<Idx>
 {
     type SerType = Self;
-    const IS_ZERO_COPY: bool = true;
+    // Ranges can be elements of zero-copy blocks, which are serialized as
+    // raw memory: they are zero-copy only if the index type actually is.
+    const IS_ZERO_COPY: bool = Idx::IS_ZERO_COPY;
     const ZERO_COPY_MISMATCH: bool = false;
 
     #[inline(always)]
